@@ -10,6 +10,7 @@ REQUIRED = ["CifModel.C04_inv_init", "CifModel.C04_inv_sql", "CifModel.C04_inv_s
             "CifModel.C04_cex_F30_pinned", "CifModel.C04_cex_F34_pinned",
             "CifModel.C04_packets_total_init", "CifModel.C04_packets_total_step", "CifModel.C04_packets_total", "CifModel.C04_packets_total_reads",
             "CifModel.C04_code_set_category", "CifModel.C04_code_add_packet", "CifModel.C04_code_remove_item",
+            "CifModel.C04_abs_fuel_suffices", "CifModel.C04_refines_create_frame", "CifModel.C04_create_frame_elsewhere", "CifModel.C04_refines_destroy_container",
             "CifModel.Store.schema_tables_link", "CifModel.Store.schema_triggers_link", "CifModel.Store.schema_sql_link",
             "CifModel.Store.schema_messages_link", "CifModel.Store.C05_paths_link"]
 GEN = ["ErrCodes", "Schema"]
